@@ -1,13 +1,146 @@
 /-
-  Driver.OpsC02 — protocol operations for property C02 (filled in by the C02 work package).
-  Contract: `handleC02 op` returns the parser for operation `op` or `none` if `op` is not one of
-  this property's operations.
+  Driver.OpsC02 — protocol operations for property C02.
+
+  c02sort   <mesh>                                  canonical form of `sort(mesh)`
+  c02ladder <noReorder> <noOrphanRemoval> <noDimMatch> <fields src> <fields ref>
+  c02lex    <atol> <rtol> <ncols> <nrows> v…        `get_fuzzy_lex_sorting_index_map` alone
+  c02runs   <n> b…                                  `walk_adjacent_true_index_ranges`
+  c02close  <atol> <rtol> <a> <b>                   `np.isclose` / `fuzzy_equal` on one pair
+  c02centre <k> <dim> v…                            cell centre of k corner rows
+  c02hash   <n> i…                                  CPython tuple hash
+
+  `argsort` is instantiated twice (stable merge sort; the same with reversed tie order);
+  `tie=1` says that both instantiations gave the same observable.
 -/
-import Driver.Proto
-namespace Fc.Drv
+import Driver.ProtoMesh
+import FcModel.Spec.C02
+namespace Fc.Drv.C02
+open Fc Fc.Drv Fc.C02
+
+def showNats (l : List Nat) : String := ",".intercalate (l.map toString)
+
+def showMeshMaps (pm : List Nat) (cms : List (String × List Nat)) (m : Mesh) : String :=
+  "P:" ++ showNats pm ++
+  String.join (cms.map fun (ct, cm) =>
+    "|" ++ ct ++ ":" ++ showNats cm ++ "=" ++ ";".intercalate ((m.cellsOf ct).map showNats))
+
+/-- index maps of `sort` computed with the model for a given argsort: composed point map
+    (sorted position ↦ original index), per type cell map, sorted mesh -/
+def modelSort (as : List Int → List Nat) (f : MeshFields) : Option String :=
+  let t := meshTolOf f.mesh
+  let sm := unconnectedFilterMap as f.mesh
+  let f1 := applyPointMap f sm
+  match sortPointsIdx as t f1.mesh with
+  | none => none
+  | some pm =>
+    let f2 := applyPointMap f1 pm
+    let cms := f2.mesh.cells.map fun b => (b.1, cellSortMap as pyTupleHash b.2)
+    let f3 := applyCellMaps f2 fun ct => (cms.lookup ct).getD []
+    some (showMeshMaps (pm.map fun i => sm.getD i 0) cms f3.mesh)
+
+def specSortStr (f : MeshFields) : String :=
+  let t := meshTolOf f.mesh
+  let sm := Spec.specStripMap f.mesh
+  let f1 := applyPointMap f sm
+  let pm := Spec.specSortPoints t f1.mesh
+  let f2 := applyPointMap f1 pm
+  let cms := f2.mesh.cells.map fun b => (b.1, Spec.specCellMap pyTupleHash b.2)
+  let f3 := applyCellMaps f2 fun ct => (cms.lookup ct).getD []
+  showMeshMaps (pm.map fun i => sm.getD i 0) cms f3.mesh
+
+def opSort : P String := do
+  let m ← pMesh
+  let f : MeshFields := ⟨m, [], []⟩
+  let t := meshTolOf m
+  let hyp := Spec.sortHyp pyTupleHash t f
+  let r1 := modelSort argsortStable f
+  let r2 := modelSort argsortRevTies f
+  let dup := (Spec.pointData (Spec.sepA t) (applyPointMap f (Spec.specStripMap m)).mesh).dups.length
+  pure s!"hyp={showBool hyp} model={r1.getD "raise"} tie={showBool (r1 == r2)} spec={if hyp then specSortStr f else "-"} dup={dup} atol={t.atol}"
+
+def showOutcome : LadderRes → String
+  | .raised => "raised"
+  | .done rung o =>
+    s!"{rung}:{showBool o.domainEq}:" ++
+      ",".intercalate (o.statuses.map fun (n, ct, st) => s!"{n}/{ct}~{st.show}")
+
+def opLadder : P String := do
+  let a ← pBool
+  let b ← pBool
+  let c ← pBool
+  let src ← pMeshFields
+  let ref ← pMeshFields
+  let fl : LadderFlags := ⟨a, b, c⟩
+  let r := ladder argsortStable argsortStable pyTupleHash fl src ref
+  let r2 := ladder argsortRevTies argsortStable pyTupleHash fl src ref
+  let ts := meshTolOf src.mesh
+  let tr := meshTolOf ref.mesh
+  let reached2 := match r with
+    | .done rung _ => decide (rung ≥ 2)
+    | .raised => true
+  let hs := Spec.sideHyp pyTupleHash b ts src
+  let hr := Spec.sideHyp pyTupleHash b tr ref
+  let hyp := src.wf && ref.wf && (!reached2 || (hs && hr))
+  let js := Spec.jointSep b ts tr src ref
+  pure s!"hyp={showBool hyp} model={showOutcome r} tie={showBool (r == r2)} sep={showBool (hs && hr)} jsep={showBool js} pass={showBool (Spec.ladderPasses r)} atol={ts.atol},{tr.atol}"
+
+def opLex : P String := do
+  let atol ← pNat
+  let rtol ← pNat
+  let ncols ← pNat
+  let n ← pNat
+  let vs ← pMany pInt (n * ncols)
+  let rows := chunk ncols vs n
+  let close := isclose atol rtol
+  let r1 := fuzzyLexSortIdx argsortStable close ncols rows
+  let r2 := fuzzyLexSortIdx argsortRevTies close ncols rows
+  let t : MeshTol := ⟨atol, rtol⟩
+  let A := Spec.sepA t
+  let B := Spec.sepB t
+  let kv := rows.map (Spec.keyVec A rows ncols)
+  let hyp := decide (0 < ncols) && Spec.boundsOk t A B (maxAbsCoord rows) &&
+    ((List.range ncols).all fun j => Spec.sepCol A B (Spec.column rows j)) &&
+    (kv.zipIdx.all fun (k, i) => kv.zipIdx.all fun (k', j) => i == j || k != k')
+  let spec := (List.range n).mergeSort fun i j => !Spec.lexLt (kv.getD j []) (kv.getD i [])
+  pure s!"hyp={showBool hyp} model={showNats r1} tie={showBool (r1 == r2)} spec={if hyp then showNats spec else "-"}"
+
+def opRuns : P String := do
+  let bs ← pList pBool
+  let rs := walkRuns bs
+  pure ("hyp=1 model=" ++ ";".intercalate (rs.map fun (s, e) => s!"{s},{e}") ++ " spec=-")
+
+def opClose : P String := do
+  let atol ← pNat
+  let rtol ← pNat
+  let a ← pInt
+  let b ← pInt
+  let t : MeshTol := ⟨atol, rtol⟩
+  pure s!"hyp=1 model={showBool (t.closeIs a b)}{showBool (t.closeFz a b)} spec=-"
+
+def opCentre : P String := do
+  let k ← pNat
+  let dim ← pNat
+  let vs ← pMany pInt (k * dim)
+  let rows := chunk dim vs k
+  match cellCentre rows (List.range k) with
+  | some c => pure ("hyp=1 model=" ++ ",".intercalate (c.map toString) ++ " spec=-")
+  | none => pure "hyp=0 model=none spec=-"
+
+def opHash : P String := do
+  let is ← pList pNat
+  pure s!"hyp=1 model={pyTupleHash is} spec=-"
 
 def handleC02 (op : String) : Option (P String) :=
   match op with
+  | "c02sort" => some opSort
+  | "c02ladder" => some opLadder
+  | "c02lex" => some opLex
+  | "c02runs" => some opRuns
+  | "c02close" => some opClose
+  | "c02centre" => some opCentre
+  | "c02hash" => some opHash
   | _ => none
 
-end Fc.Drv
+end Fc.Drv.C02
+
+def Fc.Drv.handleC02 := Fc.Drv.C02.handleC02
